@@ -5,7 +5,7 @@ from hypothesis import strategies as st
 from ECAgent.Core import Model, ComponentNotFoundError
 from ECAgent.Environments import ConstantGenerator, DiscreteWorld, GridWorld, LineWorld, LookupGenerator
 from vf.engine import Violation, InvalidCase
-from vf.fixtures import check, expect_raises, sized_lists, wone_of
+from vf.fixtures import maybe_complete, with_done, check, expect_raises, sized_lists, wone_of
 
 PROPERTY = "C11"
 BUDGET = {"quick": 700, "thorough": 2500}
@@ -146,6 +146,7 @@ def run_case(case):
         world2.add_cell_component(NAMES[0], [10, 11, 12, 13, 14, 15])
         labels.add("second-world-alive")
     for k, op in enumerate(case["ops"]):
+        maybe_complete(case, k, world.model, labels)
         where = f"after op {k} {_short(op)}"
         if op["op"] == "add":
             name = NAMES[int(op["name"]) % NNAMES]
@@ -343,7 +344,7 @@ def strategy(tier):
         {"op": "add", "name": 0, "again": True, "src": {"kind": kind_, "mult": m_ * (8 if vt == ("int", "float") else 1), "off": o_ * (8 if vt == ("int", "float") else 1),
                                                        "vtype": vt[1], "lowdim": False, "numpy": True}}]),
         small_shape, st.sampled_from(["array", "array", "list", "callable"]), pair, st.sampled_from([1, 3]), st.integers(0, 20))
-    return wone_of(*([small] * 13 + [refresh, many]))
+    return with_done(wone_of(*([small] * 13 + [refresh, many])))
 
 
 def _small(shape, op):
